@@ -112,6 +112,17 @@ func identStatic(c *IdentCase) error {
 		return fmt.Errorf("harness: generated YAML does not load: %v", err)
 	}
 	m, err := cfg.AsLogMap()
+	hasEmpty := false
+	for _, o := range c.Origins {
+		if o == "" {
+			hasEmpty = true
+		}
+	}
+	if hasEmpty && err != nil {
+		// an entry without an origin: refusing it at load time is as good as filing it - what
+		// must not happen is that the loaders accept it and disagree about its ID
+		return nil
+	}
 	if c.Dup >= 0 {
 		if err == nil {
 			return fmt.Errorf("two configured logs share the origin %q (one ID) and AsLogMap accepted them", c.Origins[c.Dup])
@@ -130,22 +141,31 @@ func identStatic(c *IdentCase) error {
 		}
 		lc, err := config.NewLog(l.Origin, l.PublicKey, l.URL)
 		if err != nil {
+			if hasEmpty && c.Origins[i] == "" {
+				continue // refused: fine (see above)
+			}
 			return fmt.Errorf("config.NewLog(%q): %v", l.Origin, err)
 		}
 		wi, ok := m[lc.ID]
 		if !ok {
 			return fmt.Errorf("origin %q: feeders/bastion/distributor use ID %s, which is not a key of the witness map", l.Origin, lc.ID)
 		}
-		if wi.Origin != l.Origin {
-			return fmt.Errorf("ID %s files origin %q in the witness map but %q in the feeder list", lc.ID, wi.Origin, l.Origin)
+		if wi.Origin != lc.Origin {
+			return fmt.Errorf("ID %s files origin %q in the witness map but %q in the feeder list", lc.ID, wi.Origin, lc.Origin)
 		}
-		if lc.ID != logfmt.ID(l.Origin) {
+		if l.Origin != "" && lc.Origin != l.Origin {
+			return fmt.Errorf("configured origin %q became %q in the feeder list", l.Origin, lc.Origin)
+		}
+		if lc.ID != logfmt.ID(lc.Origin) {
+			return fmt.Errorf("feeder list entry with origin %q carries ID %s, the ID of that origin is %s", lc.Origin, lc.ID, logfmt.ID(lc.Origin))
+		}
+		if l.Origin != "" && lc.ID != logfmt.ID(l.Origin) {
 			return fmt.Errorf("origin %q: config ID %s differs from the ID derived from a checkpoint's first line %s", l.Origin, lc.ID, logfmt.ID(l.Origin))
 		}
 		// the verifier filed under that ID is the one of the key configured for this entry
 		// (not that of another entry that happens to share the key's name)
 		k := identKey(c.KeyIdx[i])
-		text := vlib.CheckpointText(l.Origin, 1, make([]byte, 32), nil)
+		text := vlib.CheckpointText(lc.Origin, 1, make([]byte, 32), nil)
 		if _, err := note.Open(vlib.Note(text, k.SigLine(text)), note.VerifierList(wi.SigV)); err != nil {
 			return fmt.Errorf("origin %q (ID %s): the verifier in the witness map (%s+%08x) does not accept a signature by the key configured for this log (%s): %v", l.Origin, lc.ID, wi.SigV.Name(), wi.SigV.KeyHash(), l.PublicKey, err)
 		}
@@ -397,6 +417,11 @@ func genIdent(rt *rapid.T, viaMain bool) *IdentCase {
 			o = o + "~" + strconv.Itoa(i+n)
 		}
 		seen[full(o)] = true
+		if !viaMain && i == 0 && vlib.Pct(rt, 5, "emptyorigin") {
+			// an entry whose Origin was left out (loaders only: either refused, or filed under
+			// one ID by all of them)
+			o = ""
+		}
 		c.Origins = append(c.Origins, o)
 		c.KeyIdx = append(c.KeyIdx, rapid.IntRange(0, 4).Draw(rt, "key"))
 	}
@@ -411,7 +436,7 @@ func identHash(c *IdentCase) string {
 	return fmt.Sprintf("%x", vlib.LeafHash(b))[:16]
 }
 
-const ruleC12id = "generated configurations of 1-5 logs (origins assembled from parts with spaces, slashes, non-ASCII, URL metacharacters, shared prefixes, 6% several KiB long; shared keys, and distinct keys that share a key NAME; 30% with a duplicated origin) pushed through the real YAML schema, AsLogMap and config.NewLog (static part) and through the assembled service started by Main with a stub bastion (TLS/h2 reverse connection), a stub distributor and the HTTP API (via-main part): the ID accepted/used on every interface must be one string per origin and duplicates must be refused at start-up; non-trivial = any; distinct by case hash"
+const ruleC12id = "generated configurations of 1-5 logs (origins assembled from parts with spaces, slashes, non-ASCII, URL metacharacters, shared prefixes, 6% several KiB long, 5% of the loader-only cases with an entry whose Origin is left out; shared keys, and distinct keys that share a key NAME; 30% with a duplicated origin) pushed through the real YAML schema, AsLogMap and config.NewLog (static part) and through the assembled service started by Main with a stub bastion (TLS/h2 reverse connection), a stub distributor and the HTTP API (via-main part): the ID accepted/used on every interface must be one string per origin and duplicates must be refused at start-up; non-trivial = any; distinct by case hash"
 
 func TestC12Static(t *testing.T) {
 	st := vlib.StatsFor("C12", "id-static", ruleC12id)
